@@ -118,6 +118,7 @@ unsafe impl GlobalAlloc for Alloc {
                 self.used.fetch_sub(new_size, Ordering::Release);
             } else {
                 self.used.fetch_sub(old_size, Ordering::Release);
+                self.max.fetch_max(new_used - old_size, Ordering::Relaxed);
             }
             result
         } else {
